@@ -74,7 +74,14 @@ Definition emptystream_of (k : kind) : bool := match k with KDir => true | _ => 
 (* ArchiveFile: attributes may be absent (None) *)
 Definition test_attribute (a : option Z) (bit : Z) : bool :=
   match a with None => false | Some v => Z.land v bit =? bit end.
-Definition is_directory (a : option Z) : bool := test_attribute a FA_DIRECTORY.
+(* the attribute word alone (what is_directory was before the F22 repair; still what it is for entries with data) *)
+Definition attr_is_directory (a : option Z) : bool := test_attribute a FA_DIRECTORY.
+(* truth value of self._get_property(key) for a key that holds a bool: None = the key is absent *)
+Definition flag_set (o : option bool) : bool := match o with Some b => b | None => false end.
+(* ArchiveFile.is_directory: an entry without data (emptystream) is an empty file when its EmptyFile bit is set and a
+   directory otherwise, whatever its attributes say (the format's rule); an entry with data: the attribute word *)
+Definition is_directory (a : option Z) (emptystream emptyfile : option bool) : bool :=
+  if flag_set emptystream then negb (flag_set emptyfile) else attr_is_directory a.
 Definition is_readonly (a : option Z) : bool := test_attribute a FA_READONLY.
 Definition get_unix_extension (a : option Z) : option Z :=
   match a with
@@ -93,11 +100,22 @@ Definition posix_mode (a : option Z) : option Z := option_map S_IMODE (get_unix_
 Definition st_fmt (a : option Z) : option Z := option_map S_IFMT (get_unix_extension a).
 
 (* the per-kind dispatch of _extract (l.592-607): directory, socket (ignored: None), link, regular file *)
-Definition entry_kind (a : option Z) : option kind :=
-  if is_directory a then Some KDir
+Definition entry_kind_f (a : option Z) (emptystream emptyfile : option bool) : option kind :=
+  if is_directory a emptystream emptyfile then Some KDir
   else if is_socket a then None
   else if is_symlink a || is_junction a then Some KLink
   else Some KFile.
+(* entries with data (not emptystream): the attribute word alone *)
+Definition entry_kind (a : option Z) : option kind :=
+  if attr_is_directory a then Some KDir
+  else if is_socket a then None
+  else if is_symlink a || is_junction a then Some KLink
+  else Some KFile.
+Lemma entry_kind_f_data a es ef : flag_set es = false -> entry_kind_f a es ef = entry_kind a.
+Proof. intros H. unfold entry_kind_f, entry_kind, is_directory. now rewrite H. Qed.
+(* an entry without data whose EmptyFile bit is not set is a directory, whatever the attributes *)
+Lemma entry_kind_f_nodata a es ef : flag_set es = true -> flag_set ef = false -> entry_kind_f a es ef = Some KDir.
+Proof. intros H1 H2. unfold entry_kind_f, is_directory. now rewrite H1, H2. Qed.
 
 (* ================================================================== 2. names, paths, order *)
 Definition name := list Z.          (* code points *)
@@ -444,7 +462,11 @@ Fixpoint link_inside (depth : Z) (tg : path) : bool :=
     else link_inside (depth + 1) tg'
   end.
 
-Definition is_dir_e (e : entry) : bool := is_directory (Some (e_attr e)).
+(* the flags of an entry as FilesInfo._read leaves them for an archive py7zr wrote: "emptystream" always present;
+   "emptyfile" False for an empty-stream entry (py7zr never sets the EmptyFile bit: next(flags, False)), absent otherwise *)
+Definition e_emptyfile (e : entry) : option bool := if e_empty e then Some false else None.
+Definition is_dir_e (e : entry) : bool := is_directory (Some (e_attr e)) (Some (e_empty e)) (e_emptyfile e).
+Definition entry_kind_e (e : entry) : option kind := entry_kind_f (Some (e_attr e)) (Some (e_empty e)) (e_emptyfile e).
 
 (* one file-system operation of the extraction: apply o_f at o_path, creating parents if o_mk *)
 Record op := mkOp { o_path : path; o_mk : bool; o_f : option node -> res node }.
@@ -464,7 +486,7 @@ Definition fail (e : err) : option node -> res node := fun _ => Err e.
    fileish.parent.mkdir(parents=True, exist_ok=True) is the o_mk of the operation *)
 Definition extract_ops (pe : path * entry) : list op :=
   let (p, e) := pe in
-  match entry_kind (Some (e_attr e)) with
+  match entry_kind_e e with
   | Some KDir | None => []
   | Some _ =>
     if e_empty e then [mkOp p true f_touch]
@@ -492,7 +514,7 @@ Definition f_meta_ro (ft : Z) (o : option node) : res node :=
   end.
 Definition post_ops (t0 : node) (pe : path * entry) : list op :=
   let (p, e) := pe in
-  let inpost := match entry_kind (Some (e_attr e)) with
+  let inpost := match entry_kind_e e with
                 | Some KDir => negb (exists_b t0 p)
                 | Some KFile => true
                 | _ => false
@@ -601,9 +623,10 @@ Definition mode_dispatch (fn : Z) (a : tree) : tree :=
   match fn with
   (* FN 320 attributes_of : (kind st_mode) -> int *)
   | 320 => TI (attributes_of (of_kind (tnth a 0)) (of_TI (tnth a 1)))
-  (* FN 321 decode_attr : () | (attr) -> (is_directory is_symlink is_junction is_socket readonly posix_mode|() st_fmt|() kind|()) *)
+  (* FN 321 decode_attr : () | (attr) -> (is_directory is_symlink is_junction is_socket readonly posix_mode|() st_fmt|() kind|())
+     of an entry without the emptystream / emptyfile keys *)
   | 321 => let o := of_optZ a in
-           TL [t_bool (is_directory o); t_bool (is_symlink o); t_bool (is_junction o); t_bool (is_socket o);
+           TL [t_bool (is_directory o None None); t_bool (is_symlink o); t_bool (is_junction o); t_bool (is_socket o);
                t_bool (is_readonly o); t_optZ (posix_mode o); t_optZ (st_fmt o); t_opt t_kind (entry_kind o)]
   (* FN 322 classify : (deref lmode smode) -> () | ((kind attr emptystream)) *)
   | 322 => t_opt (fun ka => TL [t_kind (fst ka); TI (attributes_of (fst ka) (snd ka));
